@@ -4,6 +4,7 @@ from its stripped form by more than 1e-6 (value: that difference rounded to the 
 labile shift exactly when the peptide has such modifications (value: the rounded sum of their masses), and nothing else."""
 from contracts._records import RECORDS, CLASSES, CTORS, PA, accessor_contracts, pop_contracts
 ALIASES = {}
+OPAQUE_LISTS = ['ModList']
 FUNCS = {'NUM1': (['real'], 'ModList')}      # the modification list [Mod(x, 1)] a bare number is normalised to
 AXIOMS = []
 MC = 'peptacular.mass_calc:'
